@@ -105,13 +105,47 @@ theorem armOK_visit {g : Graph} {l r : Nat} {vis : List Key} {X : List Key → O
     simp only [List.mem_cons] at hk
     exact hk
 
+theorem lkey_fixed (g : Graph) (i : Nat) : lkey Cfg.fixed g i = i := by
+  simp [lkey, Cfg.fixed]
+
+/-- under the fixed configuration the short cut fires only for identical signatures -/
+theorem sigSame_fixed {s t : Option ListSig} (h : sigSame Cfg.fixed s t = true) :
+    ∃ a, s = some a ∧ t = some a := by
+  cases s with
+  | none => simp [sigSame] at h
+  | some a =>
+    cases t with
+    | none => simp [sigSame] at h
+    | some b =>
+      simp only [sigSame, Cfg.fixed, Bool.not_true, Bool.false_or, Bool.and_eq_true, beq_iff_eq] at h
+      refine ⟨a, rfl, ?_⟩
+      cases a; cases b
+      simp only [ListSig.mk.injEq, Option.some.injEq] at h ⊢
+      exact ⟨h.1.1.symm, h.1.2.symm, h.2.symm⟩
+
+theorem listSig_same_elems {g : Graph} (hs : ListSigOK g) {l r : Nat} {xs ys : List Nat} {a : ListSig}
+    (hl : l < g.length) (hnl : g.node l = .list xs (some a)) (hnr : g.node r = .list ys (some a)) : xs = ys := by
+  have hr : r < g.length := by
+    apply Classical.byContradiction
+    intro hge
+    rw [node_of_ge g (Nat.le_of_not_lt hge)] at hnr
+    exact absurd hnr (by simp)
+  have h := hs
+  unfold ListSigOK listSigB at h
+  rw [List.all_eq_true] at h
+  have h1 := h _ (node_mem g hl)
+  rw [List.all_eq_true] at h1
+  have h2 := h1 _ (node_mem g hr)
+  rw [hnl, hnr] at h2
+  simpa using h2
+
 theorem sum_two (f : Nat → Nat) (a b : Nat) : ([a, b].map f).sum = f a + f b := by simp
 
 /-- **One arm is right**: under the fixed configuration, and if the nested key comparison `keyEq`
     agrees with the specification on the keys of the left value, the arm either returns `false` and
     the two values are different, or skips a pair that has been expanded before, or pushes pairs
     whose equality is equivalent to the equality of the two values. -/
-theorem arm_spec {g : Graph} (hwf : WF g) (hn : NoNaN g) (hkd : KeysDistinct g)
+theorem arm_spec {g : Graph} (hwf : WF g) (hn : NoNaN g) (hkd : KeysDistinct g) (hsig : ListSigOK g)
     {l : Nat} (hl : l < g.length) (r : Nat) (vis : List Key) (keyEq : Nat → Nat → Bool)
     (hk : ∀ k ∈ children (g.node l), ∀ k', keyEq k k' = eqSpec g k k') :
     ArmOK g l r vis (arm Cfg.fixed g keyEq l r vis) := by
@@ -132,13 +166,23 @@ theorem arm_spec {g : Graph} (hwf : WF g) (hn : NoNaN g) (hkd : KeysDistinct g)
       exact ArmOK.ret (by rw [hspec]; exact hxy)
     · simp only [if_true]
       exact ArmOK.done (by rw [hspec]; exact hxy) hkeep
-  case list.list xs ys =>
+  case list.list xs s ys t =>
+    simp only [lkey_fixed]
     split
     · rename_i h
       apply ArmOK.done _ hkeep
       simp only [Bool.or_eq_true, beq_iff_eq, Bool.and_eq_true, List.isEmpty_iff] at h
-      rcases h with h | ⟨h1, h2⟩
+      rcases h with (h | h) | ⟨h1, h2⟩
       · exact hrefl h
+      · -- same storage, same index, same next node: the same elements
+        obtain ⟨a, hs, ht⟩ := sigSame_fixed h
+        subst hs; subst ht
+        have hxy : xs = ys := listSig_same_elems hsig hl hnl hnr
+        subst hxy
+        rw [hspec]
+        apply all2_refl
+        intro x hx
+        exact spec_refl hwf hn hkd x (Nat.lt_trans (hlt x hx) hl)
       · rw [hspec, h1, h2]; rfl
     · apply armOK_visit
       intro vis' hv
@@ -341,7 +385,7 @@ theorem topEq_spec {g : Graph} (hwf : WF g) {a : Nat} (ha : a < g.length) (b : N
 
 /-- **The loop is right** (fixed configuration): with enough fuel it returns whether all pairs on the
     stack are equal — whatever has been visited, as long as the invariant `Closed` holds. -/
-theorem loop_correct {g : Graph} (hwf : WF g) (hn : NoNaN g) (hkd : KeysDistinct g) :
+theorem loop_correct {g : Graph} (hwf : WF g) (hn : NoNaN g) (hkd : KeysDistinct g) (hsig : ListSigOK g) :
     ∀ (f : Nat) (ps : List (Nat × Nat)) (vis : List Key) (W : List (Nat × Nat)),
       (∀ p ∈ ps, p.1 < g.length) → (∀ l r, Key.two l r ∈ vis → (l, r) ∈ W) → Closed g ps W →
       (ps.map (fun p => size g p.1)).sum ≤ f →
@@ -384,7 +428,7 @@ theorem loop_correct {g : Graph} (hwf : WF g) (hn : NoNaN g) (hkd : KeysDistinct
         · simp
         · have : hashEq Cfg.fixed g k k' = true := relF_spec_hash g _ _ _ hs
           simp [this]
-      have harm := arm_spec hwf hn hkd hl r vis _ hk
+      have harm := arm_spec hwf hn hkd hsig hl r vis _ hk
       generalize arm Cfg.fixed g _ l r vis = out at harm
       cases harm with
       | ret hfalse => simp [specP, hfalse]
